@@ -349,10 +349,23 @@ def shard(ctx: Ctx) -> None:
             for cut in range(0, n + tp):
                 cuts = (cut,) if cut else ()
                 check(ctx, frames, tf, tp, cuts, kinds[(tp + cut) % len(kinds)], "tiny-tail")
+    # 3. part S: the real connection behind the helper, the real selector transport under it
+    from vf.props import c01_s  # noqa: PLC0415
+
+    c01_s.shard(ctx)
 
 
 def replay(spec: dict[str, Any]) -> int:
     case = spec["case"]
+    if case.get("part") == "S":
+        from vf.common import Ctx as _Ctx  # noqa: PLC0415
+        from vf.props import c01_s  # noqa: PLC0415
+
+        c = _Ctx("C01", 0, 1, "quick", 0)
+        c01_s.shard(c)
+        for v in c.res.violations:
+            print(v["key"], v["what"])
+        return 1 if c.res.violations else 0
     if case.get("pair"):
         group = [[(t, payload(n, 100 * gi + i + 1)) for i, (t, n) in enumerate(zip(ts, ns))] for gi, (ts, ns) in enumerate(zip(case["frame_types"], case["frame_lens"]))]
         probs = run_pair(group, [tuple(c) for c in case["cutsets"]], case["kind"])
